@@ -6,7 +6,8 @@ ContextsDef == AllContexts
 FullAlphabet == CssSym
 NoExtra == {}
 ASSUME EmitSyms
-Common == << <<";">>, <<"}">>, <<"{">>, <<"<","/","s","t","y","l","e",">">>, <<"/","*">>, <<CBSL>>, <<"LF">>, <<"SP">>, <<"a">>, <<",">>, <<CDQ>>, <<"'">> >>
+Common == << <<";">>, <<"}">>, <<"{">>, <<"<","/","s","t","y","l","e",">">>, <<"/","*">>, <<CBSL>>, <<"LF">>, <<"SP">>, <<"a">>, <<",">>, <<CDQ>>, <<"'">>,
+            <<"!","i","m","p","o","r","t","a","n","t">>, <<"!">> >>   \* the priority flag (delim '!' + ident) and a lone '!'
 CssTokensDef ==
   [k \in AllClasses |->
      CASE k = "FontFamily" -> Common \o << <<CDQ,"a",CDQ>>, <<"s","e","r","i","f">>, <<"UWS">>, <<"(">>, <<")">>, <<":">>, <<"&">> >>
